@@ -170,7 +170,8 @@ Inductive psite :=
 | PCtorNilBody             (* mapper/ctor.go:193    ast.Inspect(fn.Body) with a nil body *)
 | PCtorParamName           (* mapper/ctor.go:64     p.Names[0] of an unnamed parameter *)
 | PSetterNoParam           (* mapper/methods.go:90  params.List[0] of an empty parameter list *)
-| PGetterNoResult.         (* mapper/methods.go:107 results.List[0] of an empty result list *)
+| PGetterNoResult          (* mapper/methods.go:107 results.List[0] of an empty result list *)
+| PTestFileNoPos.          (* shoot/generatorbase.go:255 Fset.File(file.Pos()).Name() on a file without package clause *)
 
 (* unbounded recursions *)
 Inductive lsite :=
@@ -272,7 +273,8 @@ Inductive decl :=
 | DFunc (f : fdecl)
 | DComment (text : string).               (* a // comment line at top level *)
 
-(* f_imports: local names under which this file imports the destination package of `map` *)
+(* f_pkg: the name in the package clause, "" when the file has no (valid) package clause;
+   f_imports_dest: local names under which this file imports the destination package of `map` *)
 Record file := { f_name : string; f_pkg : string; f_imports_dest : list string; f_decls : list decl }.
 
 (* ------------------------------------------------------------ the input *)
@@ -551,8 +553,11 @@ Fixpoint find_allinone (cmdline : string) (fs : list file) : string :=
   | f :: r => if file_has_cmdline cmdline f then f_name f else find_allinone cmdline r
   end.
 
+Definition pkg_names (fs : list file) : list string :=
+  filter (fun n => negb (n =? "")) (map f_pkg fs).
+
 Definition pkg_name_of (fs : list file) : string :=
-  match fs with f :: _ => f_pkg f | [] => "" end.
+  match pkg_names fs with n :: _ => n | [] => "" end.
 
 Definition load_package (i : input) (fl : flags) : res loaded :=
   let files := files_of i (fl_dir fl) in
@@ -573,7 +578,7 @@ Definition load_package (i : input) (fl : flags) : res loaded :=
   (* hasMultiPkgs for every loaded package, then the same pattern twice *)
   (* outside a module `go list` reports no package at all, so none of the patterns is found *)
   do_ guard (i_inmodule i) DNoPackage;
-  do_ guard (all_same (map f_pkg files) && all_same (map f_pkg dfiles)) DMultiPkg;
+  do_ guard (all_same (pkg_names files) && all_same (pkg_names dfiles)) DMultiPkg;
   (* the pattern "." twice: the second match of the same directory is fatal; a directory without
      Go files is matched by its import path "." and not checked *)
   do_ guard (match fl_sub fl with
@@ -1153,9 +1158,11 @@ Definition map_list (fl : flags) (ld : loaded) : list string :=
 
 (* ----------------------------------------------------------- Generate *)
 
-(* a *.go entry of the package directory that cannot be opened *)
+(* parser.ParseDir on the package directory fails: a *.go entry that cannot be opened, or a
+   Go file without package clause (a syntax error) *)
 Definition has_dangling_go (i : input) (fl : flags) : bool :=
-  existsb (fun '(n, e) => ends_with ".go" n && match e with EDangling => true | _ => false end) (extra_of i (fl_dir fl)).
+  existsb (fun '(n, e) => ends_with ".go" n && match e with EDangling => true | _ => false end) (extra_of i (fl_dir fl)) ||
+  existsb (fun f => f_pkg f =? "") (files_of i (fl_dir fl)).
 
 Definition make_data (i : input) (fl : flags) (ld : loaded) (T : string) : res bool :=
   match fl_sub fl with
@@ -1190,7 +1197,12 @@ Definition confirm_types (fl : flags) (ld : loaded) : res (list string * list (s
     do_ each (fun T => if fl_file fl =? "" then Ok tt
                        else guard (fl_file fl =? go_file T (ld_files ld)) DNotInFile) (fl_types fl);
     Ok (fl_types fl, map (fun T => (T, go_file T (ld_files ld))) (fl_types fl))
-  else Ok (list_types fl ld, []).
+  else
+    (* ListTypes calls g.TestFile on every file; with -file it dereferences the token.File of
+       file.Pos(), which is nil for a file without package clause *)
+    if negb (fl_file fl =? "") && existsb (fun f => f_pkg f =? "") (ld_files ld)
+    then Stop (Panic PTestFileNoPos)
+    else Ok (list_types fl ld, []).
 
 Definition render_of (i : input) (T : string) : rclass :=
   match assoc T (i_render i) with Some r => r | None => ROk end.
